@@ -21,6 +21,8 @@ sys.path.insert(0, HERE)
 import userfns  # noqa: E402
 
 warnings.simplefilter("ignore")
+import logging  # noqa: E402
+logging.disable(logging.CRITICAL)
 
 # --------------------------------------------------------------------------
 # value encoding (Python -> protocol)
